@@ -24,6 +24,11 @@ pub fn run(ctx: &Ctx) -> Report {
             cases.push(Case::new("attr", v).text(&[k.name(), &format!("{t:x}")]));
         }
     }
+    for k in attrs::ALL_KINDS {
+        for (v, t) in values::lane_walk(k, ctx.seeded(13)) {
+            cases.push(Case::new("attr", v).text(&[k.name(), &format!("{t:x}")]));
+        }
+    }
     for len in 0..=763usize {
         let v: Vec<u8> = (0..len).map(|i| (i * 3 + 1) as u8).collect();
         cases.push(Case::new("raw", v.clone()).args(&[0xFF00]));
@@ -35,7 +40,7 @@ pub fn run(ctx: &Ctx) -> Report {
     // (b) builders: the C03 family (a subset in quick)
     let tid0: u128 = ((ctx.seeded(5) as u128) << 16 | 0xABCD) & c03::MASK96;
     let alpha = c03::attr_alphabet(tid0);
-    let lists = c03::attr_lists(&alpha, ctx.tier.pick(2, 3));
+    let lists = c03::attr_lists(&alpha, ctx.tier.pick(3, 3));
     for (i, l) in lists.iter().enumerate() {
         for s in c03::sealings(0) {
             let mut ops = l.clone();
@@ -69,7 +74,7 @@ pub fn run(ctx: &Ctx) -> Report {
     Report {
         acc,
         exhaustive: true,
-        rule: "every encode-side value of all 19 attribute types and raw attributes of every length 0..=763, each written into destinations of every size 0..=padded+16; builders of the C03 family (+ interleaved into_owned/clone), each written into destinations of every size 0..=len+16; distinct_nontrivial = value/builder cases that could be constructed".into(),
+        rule: "every encode-side value and every representable byte-lane-walk value of all 19 attribute types and raw attributes of every length 0..=763, each written into destinations of every size 0..=padded+16; builders of the C03 family (+ interleaved into_owned/clone), each written into destinations of every size 0..=len+16; distinct_nontrivial = value/builder cases that could be constructed".into(),
         bounds: json!({"attribute_value_cases": n_attr, "builder_cases": n_all - n_attr, "dest_sizes": "0..=needed+16"}),
         assumptions: vec![],
         ..Default::default()
